@@ -270,9 +270,13 @@ func sharedDefinitionCases(oracle string) []Case {
 		inc := "##!> define " + sep + " [-_]\n##!> define " + word + " foo{{" + sep + "}}bar\n{{" + word + "}}1\n{{" + word + "}}2\nplain\n"
 		inc2 := "##!> define " + word + " foo{{" + sep + "}}bar\n##!> define " + sep + " [-_]\n{{" + word + "}}1\n{{" + word + "}}2\nplain\n"
 		for vi, incText := range []string{inc, inc2} {
-			for xi, exc := range []string{"{{" + word + "}}1\n", "##! no definitions here\n\n{{" + word + "}}1\n", "##!> define other q\n{{" + word + "}}1\n", "foo{{" + sep + "}}bar1\n", "foo[-_]bar1\n"} {
-				files := [][]byte{[]byte("i"), []byte("words.ra"), []byte(incText), []byte("e"), []byte("notone.ra"), []byte(exc), []byte("e"), []byte("nothing.ra"), []byte("##! nothing\n")}
-				for pi, prog := range []string{"##!> include-except words notone\nlast\n", "##!> include-except words nothing notone\n", "##!> assemble\n##!> include-except words notone nothing\n##!=>\nz\n##!<\n"} {
+			for xi, exc := range []string{"{{" + word + "}}1\n", "##! no definitions here\n\n{{" + word + "}}1\n", "##!> define other q\n{{" + word + "}}1\n", "foo{{" + sep + "}}bar1\n", "foo[-_]bar1\n",
+				// an exclusion file that defines a name the include file has defined: the definition made first stays
+				"##!> define " + sep + " QQ\n{{" + word + "}}1\n", "##!> define " + word + " other\n{{" + word + "}}1\n"} {
+				files := [][]byte{[]byte("i"), []byte("words.ra"), []byte(incText), []byte("e"), []byte("notone.ra"), []byte(exc), []byte("e"), []byte("nothing.ra"), []byte("##! nothing\n"),
+					[]byte("e"), []byte("redef.ra"), []byte("##!> define " + sep + " ZZ\n##!> define " + word + " zz{{" + sep + "}}\nnotinthefile\n")}
+				for pi, prog := range []string{"##!> include-except words notone\nlast\n", "##!> include-except words nothing notone\n", "##!> assemble\n##!> include-except words notone nothing\n##!=>\nz\n##!<\n",
+					"##!> include-except words redef notone\n"} {
 					if (vi+xi+pi)%2 == 1 && xi > 1 {
 						continue
 					}
